@@ -20,7 +20,10 @@ THEOREMS = [
     "dt_sub_dt_exact", "dt_rsub_dt_exact", "add_sub_cancel", "dt_cmp_agrees", "reflected_aliases",
     "mixed_result_kind", "mixed_cmp_trichotomy", "mixed_cmp_swap", "mixed_add_dt_error", "mixed_add_ht_error",
     "mixed_td_plus_dtabs_error", "mixed_td_plus_htabs_error",
-    "cmpInt_trichotomy", "cmpHt_is_cmpInt", "mixed_cmp_ht_total", "mixed_cmp_ht_out_of_range"]
+    "cmpInt_trichotomy", "cmpHt_is_cmpInt", "mixed_cmp_ht_total", "mixed_cmp_ht_out_of_range",
+    # mixed divmod: quotient and remainder belong to one converted divisor
+    "init_check_checked", "conv_divmod_identity", "mixed_divmod_identity_ht", "mixed_divmod_identity_dt",
+]
 RULE = ("operand pairs from the 128-bit edge lattice squared (carry from fraction into seconds, negatives with "
         "non-zero fraction, results at ±2^127∓1, zero divisors) plus seeded random pairs; every operator of "
         "TimeDelta/DateTime on bintime operands is checked against Python big-int arithmetic on .ticks and against "
